@@ -532,6 +532,65 @@ pub fn cmd_mate_facts(args: &Args) {
 }
 
 // ------------------------------------------------------------------------------------------
+// transposition-table probes of cached searches (C12): every consulted entry with the node's depth and
+// window, followed by what the node did (went on with a window / returned at once)
+
+pub fn cmd_probe_trace(args: &Args) {
+    // cases: {"id", "fen", "pre": [depths searched before, cache kept], "depth": d}
+    let cases = read_cases(&args.str("cases", "work/search/cases.ndjson"));
+    let out = args.str("out", "work/search/probes.ndjson");
+    let cap = args.usize("cap", 40000);
+    crate::board::zkey::ZTable::init();
+    std::panic::set_hook(Box::new(|_| {}));
+    let mut w = std::io::BufWriter::new(std::fs::File::create(&out).unwrap());
+    let mut written = 0usize;
+    let mut done = 0usize;
+    let mut probes = 0usize;
+    for (i, c) in cases.iter().enumerate() {
+        if written >= cap {
+            break;
+        }
+        let fen = c["fen"].as_str().unwrap();
+        let id = c["id"].as_u64().unwrap_or(i as u64);
+        let depth = c["depth"].as_u64().unwrap_or(3) as u8;
+        let mut sched: Vec<u8> = c["pre"]
+            .as_array()
+            .map(|a| a.iter().map(|x| x.as_u64().unwrap() as u8).collect())
+            .unwrap_or_default();
+        sched.push(depth);
+        let board = Board::from_fen(fen);
+        clear_tt();
+        for (k, d) in sched.iter().enumerate() {
+            crate::verif::STEPS.store(true, Ordering::Relaxed);
+            let o = run_search(&board, *d, None, None, None, "keep", true);
+            crate::verif::STEPS.store(false, Ordering::Relaxed);
+            writeln!(
+                w,
+                "{{\"ev\":\"psearch\",\"id\":{id},\"fen\":\"{fen}\",\"nth\":{k},\"depth\":{d},\"panicked\":{}}}",
+                o.panicked
+            )
+            .unwrap();
+            written += 1;
+            let mut keep_next = false;
+            for e in &o.events {
+                let is_probe = e.contains("\"ev\":\"probe\"");
+                if is_probe || keep_next {
+                    writeln!(w, "{e}").unwrap();
+                    written += 1;
+                }
+                if is_probe {
+                    probes += 1;
+                }
+                keep_next = is_probe;
+            }
+        }
+        done += 1;
+    }
+    w.flush().unwrap();
+    println!("{{\"cases\":{done},\"probes\":{probes},\"lines\":{written}}}");
+}
+
+// ------------------------------------------------------------------------------------------
 
 pub fn cmd_determinism(args: &Args) {
     // cases: {"fen", "hist", "depth"}; each searched `reps` times from an empty cache
